@@ -110,7 +110,7 @@ def journal_mode(path=None):
     from yowsup.axolotl.store.sqlite.liteaxolotlstore import LiteAxolotlStore
     d = None
     if path is None:
-        d = tempfile.mkdtemp(prefix="jm-", dir=os.environ.get("VERIF_SCRATCH"))
+        d = tempfile.mkdtemp(prefix="jm-", dir=boot.scratch_dir())
         path = os.path.join(d, "axolotl.db")
     store = LiteAxolotlStore(path)
     conn = store.identityKeyStore.dbConn
@@ -118,6 +118,41 @@ def journal_mode(path=None):
     mode = (mode.decode("ascii", "replace") if isinstance(mode, bytes) else str(mode)).lower()
     conn.close()
     return mode
+
+
+def fault_outcomes():
+    """what each operation of the CURRENT source leaves behind when its j-th write statement fails (a storage fault): [(op, j, rolled back)],
+    j = position in the skeleton (BEGIN = 0).  'rolled back' = the connection is not inside a transaction once the error has been passed on."""
+    from lib import axo, sqlfault
+    from yowsup.axolotl.store.sqlite.liteaxolotlstore import LiteAxolotlStore
+    pool = axo.Pool(3)
+    out = []
+    sqlfault.install()
+    try:
+        for op in sorted(axo.OPS):
+            for j in (1, 2, 3):
+                d = tempfile.mkdtemp(prefix="storefault-", dir=boot.scratch_dir())
+                store = LiteAxolotlStore(os.path.join(d, "axolotl.db"))
+                k = 30 + op
+                pre = {0: 0, 1: 0, 2: 0, 3: 3, 4: None, 5: 4, 6: 4, 7: None, 8: 7, 9: 9}[op]
+                if pre is not None:
+                    axo.apply_op(store, pool, pre, k, 0)
+                if op == 6:
+                    axo.apply_op(store, pool, 4, k + 100, 0)
+                sqlfault.arm(d, j, writes_only=True)
+                try:
+                    axo.apply_op(store, pool, op, k, 1, k + 100)
+                except Exception:
+                    pass
+                fired = sqlfault.fired()
+                sqlfault.disarm()
+                conn = store.identityKeyStore.dbConn
+                if fired:
+                    out.append((op, j, not conn.in_transaction))
+                conn.close()
+    finally:
+        sqlfault.uninstall()
+    return out
 
 
 def generate():
@@ -132,5 +167,9 @@ def generate():
           "def untracedWriters : List String := [%s]" % ", ".join('"%s"' % n for n in untraced_writers()), "",
           "/-- the journal mode in force on the store's connection once the store is open (`PRAGMA journal_mode`): a transaction is all-or-nothing",
           "    across a process death only while SQLite keeps its rollback journal (or write-ahead log) on disk -/",
-          "def journalMode : String := \"%s\"" % journal_mode(), "end Yow.Gen", ""]
+          "def journalMode : String := \"%s\"" % journal_mode(), "",
+          "/-- (operation id, position j of the write statement that was made to fail, the operation rolled its transaction back before passing the",
+          "    error on) — probed on the current source, one statement failure at a time -/",
+          "def faultOutcome : List (Nat × Nat × Bool) := [%s]" % ", ".join("(%d, %d, %s)" % (o, j, "true" if rb else "false") for o, j, rb in fault_outcomes()),
+          "end Yow.Gen", ""]
     return "\n".join(L)
